@@ -170,6 +170,16 @@ EXPANSION_DOCS = [
     ('<!DOCTYPE r [<!ATTLIST r t (x|y) #IMPLIED>]><r t="  x&#13;  ">k</r>', "k", "x\r"),
     ('<!DOCTYPE r [<!ATTLIST r t CDATA #IMPLIED>]><r t=" x&#10;y\t  z ">k</r>', "k", " x\ny   z "),
     ('<!DOCTYPE r [<!ATTLIST r t ID #IMPLIED>]><r t="\n a \r\n">k</r>', "k", "a"),
+    # declarations in every order: an entity declared AFTER an attribute-list declaration whose default already used another
+    # entity is as good as one declared before it (round-8 seed C01-K indexed the entities at the first lookup)
+    ('<!DOCTYPE r [<!ENTITY a "1"><!ATTLIST r x CDATA "&a;"><!ENTITY b "2">]><r t="&b;">&b;&a;</r>', "21", "2"),
+    ('<!DOCTYPE r [<!ATTLIST r x CDATA "&lt;"><!ENTITY a "1"><!ATTLIST r y CDATA "&a;"><!ENTITY b "&a;2"><!ATTLIST k z CDATA "&b;">]>'
+     '<r t="&b;&a;"><k/>&b;</r>', "12", "121"),
+    # public identifiers: every PubidChar, also the line break and the space, in either quote, on DOCTYPE, ENTITY and NOTATION
+    # (round-8 seed C01-L lost #xD / #xA from the class)
+    ('<!DOCTYPE r PUBLIC "-//A//B\nC D//EN" "s.dtd" [<!NOTATION n PUBLIC \'-//N\r\nX//EN\'><!ENTITY u PUBLIC "p\nq" "u.bin" NDATA n>'
+     '<!ENTITY e "v">]><r t="&e;">&e;</r>', "v", "v"),
+    ('<!DOCTYPE r PUBLIC \'a-Z0-9 ()+,./:=?;!*#@$_%\' "s"><r t="1">k</r>', "k", "1"),
 ]
 
 
